@@ -105,7 +105,7 @@ structure EnvOK : Prop where
   lists : ∀ s, 0 ≤ s → s < e.jcol → repOf e s = s →
     0 ≤ rd e.xlsub s ∧ rd e.xlsub s ≤ rd e.xprune s ∧ rd e.xprune s ≤ nextl0 ∧
     ∀ x, rd e.xlsub s ≤ x → x < rd e.xprune s →
-      0 ≤ rd L x ∧ rd L x < e.m ∧ (rd e.perm_r (rd L x) = EMPTY ∨ s ≤ rd e.perm_r (rd L x))
+      0 ≤ rd L x ∧ rd L x < e.m ∧ (rd e.perm_r (rd L x) = EMPTY ∨ s ≤ rd e.perm_r (rd L x) ∨ repOf e (rd e.perm_r (rd L x)) = s)
 
 /-- representative `t` has been discovered: `repfnz[t] != EMPTY` -/
 def disc (st : St) (t : Int) : Prop := rd st.repfnz t ≠ EMPTY
@@ -616,11 +616,12 @@ theorem scan_rows (hE : EnvOK e L nextl0) {adj : Nat → List Nat}
             · exact h
           obtain ⟨hrep1, hrep2, hrep3⟩ := hE.rep _ hkpr.1 hkpr.2
           have hskp : (s : Int) < rd e.perm_r (rd L x) := by
-            rcases hrp with h | h
+            rcases hrp with h | h | h
             · exact absurd h hkp
             · rcases Int.lt_or_eq_of_le h with h | h
               · exact h
               · exfalso; rw [← h, hrs] at hdisc; exact hds hdisc
+            · exfalso; rw [h] at hdisc; exact hds hdisc
           obtain ⟨c, hc⟩ := Int.eq_ofNat_of_zero_le (show 0 ≤ repOf e (rd e.perm_r (rd L x)) by omega)
           have hstep := rowStep_descend (e := e) (c := ⟨s, x, rd e.xprune s, st⟩) (by simpa [hrow] using hmk)
             (by simpa [hrow] using hkp) (by rw [hrow]; exact hdisc)
@@ -1242,7 +1243,8 @@ theorem wfIn_unpack (h : wfIn i = true) :
     (∀ k : Nat, (k : Int) < i.jcol → (k : Int) ≤ repOf i.env k ∧ repOf i.env k < i.jcol ∧ repOf i.env (repOf i.env k) = repOf i.env k) ∧
     (∀ s : Nat, (s : Int) < i.jcol → repOf i.env s = s →
       0 ≤ rd i.xlsub s ∧ rd i.xlsub s ≤ rd i.xprune s ∧ rd i.xprune s ≤ rd i.xlsub i.jcol ∧
-      ∀ row ∈ adjRows i.env i.lsub s, 0 ≤ row ∧ row < i.m ∧ (rd i.perm_r row = EMPTY ∨ (s : Int) ≤ rd i.perm_r row)) ∧
+      ∀ row ∈ adjRows i.env i.lsub s, 0 ≤ row ∧ row < i.m ∧
+        (rd i.perm_r row = EMPTY ∨ (s : Int) ≤ rd i.perm_r row ∨ repOf i.env (rd i.perm_r row) = s)) ∧
     (∀ row ∈ colRows i.lsubCol, 0 ≤ row ∧ row < i.m) := by
   simp only [wfIn, Bool.and_eq_true, decide_eq_true_eq] at h
   rcases h with ⟨⟨⟨⟨⟨⟨⟨⟨⟨⟨⟨⟨⟨⟨⟨h1, h2⟩, h3⟩, h4⟩, h5⟩, h6⟩, h7⟩, h8⟩, h9⟩, h10⟩, h11⟩, h12⟩, h13⟩, h14⟩, h15⟩, h16⟩
@@ -1263,7 +1265,7 @@ theorem wfIn_unpack (h : wfIn i = true) :
     rcases this with h | h
     · exact absurd hrs h
     · obtain ⟨⟨⟨a, b⟩, c⟩, d⟩ := h
-      exact ⟨a, b, c, fun row hrow => by have := d row hrow; simpa [and_assoc] using this⟩
+      exact ⟨a, b, c, fun row hrow => by have := d row hrow; simpa [and_assoc, or_assoc] using this⟩
   · intro row hrow
     have := (List.all_eq_true.mp h16) row hrow
     simpa using this
